@@ -13,9 +13,10 @@ Proof. intros H. unfold upd. destruct (Nat.eqb_spec q p); [contradiction | refle
 Section Proofs.
   Variable dead : pid -> bool.
   Variable cas : bool.
-  Notation stepe := (stepe dead cas).
-  Notation step := (step dead cas).
-  Notation exec := (exec dead cas).
+  Variable dbl : pid -> bool.
+  Notation stepe := (stepe dead cas dbl).
+  Notation step := (step dead cas dbl).
+  Notation exec := (exec dead cas dbl).
 
   (** the inductive invariant.
       I1  a holder's pid is the link content, and holders are alive;
@@ -82,7 +83,7 @@ Section Proofs.
   Lemma inv_remove s p v :
     Inv s ->
     (forall r, r <> p -> holds s r = false) ->
-    (match v with Idle | LSym _ => True | _ => False end) ->
+    (match v with Idle | LSym _ | UStart => True | _ => False end) ->
     Inv (mk None (upd (pc s) p v)).
   Proof.
     intros (I1 & I2 & I3 & I4) Hno Hv. split_inv.
@@ -151,7 +152,7 @@ Section Proofs.
         * apply inv_goto; [exact HI | exact I | intros; discriminate | intros; discriminate].
       + apply inv_goto; [exact HI | exact I | intros; discriminate | intros; discriminate].
     - destruct (link s) as [q|] eqn:El; cbn [fst].
-      + apply inv_remove; [exact HI | | exact I].
+      + apply inv_remove; [exact HI | | destruct (dbl p); exact I].
         intros r Hne. destruct (holds s r) eqn:Hh; [|reflexivity].
         destruct HI as (I1 & _). destruct (I1 _ Hh) as [E _].
         assert (Hp : holds s p = true) by (unfold holds; rewrite Epc; reflexivity).
@@ -281,7 +282,8 @@ Section Proofs.
     let s1 := step s p in
     let s2 := exec s1 others in
     snd (stepe s p) = EUReadOwn /\ holds s2 p = true
-    /\ snd (stepe s2 p) = EURmOk /\ link (step s2 p) = None /\ pc (step s2 p) p = Idle.
+    /\ snd (stepe s2 p) = EURmOk /\ link (step s2 p) = None
+    /\ pc (step s2 p) p = (if dbl p then UStart else Idle).
   Proof.
     intros G s Hpc Hoth s1 s2.
     assert (HI : Inv s) by (apply exec_inv, G).
@@ -296,7 +298,7 @@ Section Proofs.
     assert (Hs2 : pc s2 p = URm) by (unfold s2; rewrite exec_others_pc by exact Hoth; exact Hs1).
     assert (Hh2 : holds s2 p = true) by (unfold holds; rewrite Hs2; reflexivity).
     destruct HI2 as (J1 & _). destruct (J1 _ Hh2) as [El2 _].
-    assert (E2 : stepe s2 p = (mk None (upd (pc s2) p Idle), EURmOk)).
+    assert (E2 : stepe s2 p = (mk None (upd (pc s2) p (if dbl p then UStart else Idle)), EURmOk)).
     { unfold Model.stepe. rewrite Hd, Hs2, El2. reflexivity. }
     split; [rewrite E1; reflexivity|]. split; [exact Hh2|].
     unfold Model.step. rewrite E2. cbn. split; [reflexivity|]. split; [reflexivity | apply upd_same].
@@ -346,17 +348,17 @@ Definition f21_dead : pid -> bool := dead_of [2].
 Definition f21_sched : list pid := [0; 0; 0; 1; 1; 1; 1; 1; 0; 0].
 
 Lemma f21_both_hold :
-  let s := exec f21_dead false (init (Some 2)) f21_sched in
+  let s := exec f21_dead false (fun _ => false) (init (Some 2)) f21_sched in
   holds s 0 = true /\ holds s 1 = true /\ link s = Some 0.
 Proof. vm_compute. repeat split. Qed.
 
 (** the victim then cannot release: its unlock() raises ValueError *)
 Lemma f21_victim_cannot_release :
-  snd (stepe f21_dead false (exec f21_dead false (init (Some 2)) f21_sched) 1) = EUNotOwner 0.
+  snd (stepe f21_dead false (fun _ => false) (exec f21_dead false (fun _ => false) (init (Some 2)) f21_sched) 1) = EUNotOwner 0.
 Proof. vm_compute. reflexivity. Qed.
 
 (** non-triviality of the guarded theorems: a guarded run in which the lock changes hands *)
 Example guarded_run_nontrivial :
-  let s := exec (dead_of [7]) false (init None) [0; 1; 1; 1; 0; 0; 1; 2; 2] in
+  let s := exec (dead_of [7]) false (fun _ => false) (init None) [0; 1; 1; 1; 0; 0; 1; 2; 2] in
   holds s 1 = true /\ holds s 0 = false /\ link s = Some 1 /\ pc s 2 = LKill true 1.
 Proof. vm_compute. repeat split. Qed.
